@@ -325,7 +325,7 @@ func (e Engine) Run(t *core.Tape, opt core.RunOpt, agg *core.Agg) *core.Violatio
 }
 
 func (e Engine) run(t *core.Tape, opt core.RunOpt, agg *core.Agg) (*Case, *failure, uint64, error) {
-	w, _ := world.Generate(t, world.GenOpt{MinPkgs: 2, MaxPkgs: 7, Flat: true, ReadFaults: true, LineDirectives: true, DirExclude: true})
+	w, _ := world.Generate(t, world.GenOpt{MinPkgs: 2, MaxPkgs: 7, Flat: true, ReadFaults: true, LineDirectives: true, DirExclude: true, MultiModule: true, StdImports: true})
 	k, rep := params(opt)
 	c := &Case{World: w}
 	c.Execs = append(c.Execs, ExecSpec{Label: "checker/sequential/all-roots", Ex: driver.Exec{Driver: "checker", Transport: "share", Roots: allRoots(w), Rerun: -1},
